@@ -1157,6 +1157,13 @@ def check_C19(ctx):
     _, nums19 = gens.source_dictionary(ctx.snap.src)
     longd = [b'u@' + d for d in sub(ctx, gens.long_idn_domains(nums19), 2)]
     orc.update(vlib.idn_oracle(gens.domains_of(longd)))
+    # every fault code on names that sit on the 253 / 254 / 255 limits (with and without the root dot) and on over-long ones
+    lim = [b'u@' + d for d in gens.long_name_shapes() if d.endswith((b'.com', b'.com.', b'.de', b'.de.')) and 250 <= len(d) <= 258] + longd[::40]
+    orc.update(vlib.idn_oracle(gens.domains_of(lim)))
+    for c in codes:
+        for a in lim:
+            lines.append('E 3 1 %s %d - %d' % (hx(a), c, c % 2))
+    corr(ctx, 'faults on names at the length limits', lines[-len(codes) * len(lim):], lambda ln, o: o, exhaustive=True, describe=desc, nontrivial=lambda ln, o: True)
     nat = gens.e_lines(pool + longd, orc, modes=(3,), tlds=(0, 1)) + facade_lines(pool, orc, modes=(3,), tlds=(0, 1))
     corr(ctx, 'natural answers', nat, lambda ln, o: o, exhaustive=True, describe=desc, nontrivial=lambda ln, o: True, note='the same addresses with the answer the real libidn2 gives')
     # runs of 1..50 validations with a single fault at each position, and seeded multi-fault runs
@@ -1689,7 +1696,9 @@ def check_C14(ctx):
         raise vlib.BuildError('building harness/threads.c failed:\n' + out[-2000:])
     pool = gens.addr_structured() + ['u@%s' % d for d in ()] + [('user%d@' % i).encode() + d for i, d in enumerate(gens.idn_domains(ctx.rnd, 150)[:150]) if b'@' not in d] + \
            [b'a@\xc3\xbc.de', b'd@\xc3\xb1.x', 'и@почта.рф'.encode(), 'я@яндекс.рф'.encode(), b'a@b.com', b'x@[IPv6:::1]'] + \
-           [b'a@b.It', b'a@b.IQ', b'a@host.BIZ', b'a@host.INFO', b'a@b.IQX', b'a@b.COM', b'a@B.Org', b'a@b.TEST', b'a@b.Test.', b'a@example.ORG.', b'a@b.test.', b'a@b.info.']
+           [b'a@b.It', b'a@b.IQ', b'a@host.BIZ', b'a@host.INFO', b'a@b.IQX', b'a@b.COM', b'a@B.Org', b'a@b.TEST', b'a@b.Test.', b'a@example.ORG.', b'a@b.test.', b'a@b.info.'] + \
+           [b'a@[0.0.0.0]', b'a@[0.1.2.3]', b'a@[::0.0.0.0]', b'a@[IPv6:::0.1.2.3]', b'a@[00.0.0.0]', b'a@[1.2.3.4]', b'a@[255.255.255.255]', b'a@[IPv6:1:2:3:4:5:6:7:8]', b'a@[IPv6:::]', b'a@[1::2:3:4]',
+            b'a@[IPv6:FFFF::1.2.3.4]', b'a@[1.2.3.256]', b'a@[IPv6:1::2::3]']        # every path through the literal parsers
     pool = [a for a in pool if 0 not in a][:1500]
     inp = ('\n'.join(hx(a) for a in pool) + '\n').encode()
     # rounds == 0: cold start (no library call before the threads are released together)
@@ -1841,6 +1850,13 @@ def c06_corpus(ctx):
     S += ['S %s' % hx(d) for d in gens.dom_boundary()] + ['T %s' % hx(d) for d in sub(ctx, gens.dom_boundary(), 4)] + ['S %s' % hx(b'b.' + b'x' * n) for n in range(0, 300)]
     addrs = gens.addr_class(4) + gens.addr_structured() + gens.addr_boundary() + [b'u@[' + c + b']' for c in sub(ctx, gens.ip_contents(), 2)]
     addrs += [b'u@' + d for d in sub(ctx, gens.dom_boundary(), 2)] + [b'u@b.' + b'x' * n for n in range(1, 80)] + [b'u@' + d for d in gens.last_two_label_lengths()]
+    # EVERY domain length 1-2100 (1-octet steps: a fixed-size copy anywhere on the way — stack buffer, IDN input, result copy — is filled to its
+    # very end at one of them), as an ASCII name of 40-octet labels and as a name that the IDN mapping shrinks
+    lab40 = b'abcdefghij' * 4
+    for n in range(1, 2101):
+        addrs.append(b'u@' + ((lab40 + b'.') * (n // 41 + 1))[:n - 1] + b'c')
+        if n % 3 == 0 or 1000 <= n <= 1040 or 250 <= n <= 260 or 505 <= n <= 520:
+            addrs.append(b'u@b.com' + '\u00ad'.encode() * ((n - 5) // 2) + (b'' if n % 2 else b'a'))
     # every byte value at the structural positions of an address
     for c in range(1, 256):
         ch = bytes([c])
